@@ -142,6 +142,8 @@ def build(row, x, p, NFFT=None, sampling=1.0, scale_by_freq=False):
     if row == "pcorrelogram":
         return spectrum.pcorrelogram(x, lag=p["lag"], window=p["window"], **kw)
     if row == "pburg":
+        if p.get("criteria"):
+            return spectrum.pburg(x, p["order"], criteria=p["criteria"], **kw)
         return spectrum.pburg(x, p["order"], **kw)
     if row == "pyule":
         return spectrum.pyule(x, p["order"], **kw)
